@@ -65,7 +65,7 @@ KANI = [{
         H("control_lines", ["C29"], "full", "flush / delim / response-end"),
     ] + [H("encode_max_%s" % nm, ["C29"], "bounded", "%s encoder at exactly the maximum payload length (65516 minus framing)" % nm) for nm in NAMES]
       + [H("encode_empty_%s" % nm, ["C29"], "bounded", "%s encoder refuses the empty payload" % nm, tier="quick" if nm == "data" else "thorough", timeout=1500) for nm in NAMES]
-      + [H("encode_over_%s" % nm, ["C29"], "bounded", "%s encoder refuses a payload one byte above the maximum" % nm, tier="quick" if nm == "data" else "thorough", timeout=1500) for nm in NAMES]
+      + [H("encode_over_%s" % nm, ["C29"], "bounded", "%s encoder refuses a payload one byte above the maximum" % nm, tier="quick" if nm in ("data", "band1", "error") else "thorough", timeout=1500) for nm in NAMES]
       + rt(1, "quick") + rt(2, "quick") + rt(4, "quick") + rt(6, "thorough") + rt(10, "thorough")
       + [H("band_any_1", ["C29", "C06"], "bounded", "decode_band/as_text/check_error on every 1-byte data line"),
          H("band_any_3", ["C29", "C06"], "bounded", "decode_band/as_text/check_error on every 3-byte data line")],
